@@ -61,6 +61,8 @@ def main():
         sh(['git', '-C', '/repo', 'worktree', 'remove', '--force', scratch])
         # evidence files were rewritten against the scratch tree: restore the committed ones
         sh(['git', '-C', V, 'checkout', '--', 'evidence'])
+        # the generated Lean facts were regenerated from the scratch tree: regenerate them from /repo
+        sh([sys.executable, '-c', 'import sys; sys.path.insert(0, %r); import common; common.regen()' % os.path.join(V, 'lib')], cwd=V, e={k: v for k, v in env.items() if k != 'VERIF_REPO'})
     dst = os.path.join(V, 'seeded', sid); os.makedirs(dst, exist_ok=True)
     shutil.copy(os.path.join(src, 'patch.diff'), dst)
     for f in glob.glob(os.path.join(src, '*')):
